@@ -32,6 +32,27 @@ Record trait_fn := mkTF {
 
 (** ** analyze_generics.rs *)
 
+(** [lift_where_predicate]: a where predicate that names a lifetime parameter of the function is not
+    lifted to the trait (the lifetime is declared on the method, where the predicate stays) *)
+Fixpoint mentions_lt_tt (names : list string) (t : tt) : bool :=
+  match t with
+  | TG _ inner =>
+      (fix go (l : list tt) (after_quote : bool) : bool :=
+         match l with
+         | [] => false
+         | x :: r =>
+             (match x with TId n => after_quote && str_mem n names | _ => false end) ||
+             mentions_lt_tt names x || go r (is_p "'" x)
+         end) inner false
+  | _ => false
+  end.
+Definition mentions_lifetime (names : list string) (ts : toks) : bool := mentions_lt_tt names (TG NoDelim ts).
+
+Definition life_names (g : generics) : list string := map gp_name (filter is_life (p_items (g_params g))).
+
+Definition lift_where (lts : list string) (tg : trait_generics) (w : wpred) : trait_generics :=
+  if mentions_lifetime lts (wp_toks w) then tg else tg_push_where tg w.
+
 (** [extract_trait_bounds]: a relaxed bound ([?Sized]) is not a requirement on the dependency *)
 Definition is_relaxed (b : toks) : bool := starts_with_punct "?"%char b.
 Definition trait_bounds (l : list toks) : list toks := filter (fun b => negb (is_relaxed b)) l.
@@ -42,7 +63,7 @@ Definition where_items (g : generics) : list wpred :=
 (** [deps_with_generics]: every type and const parameter and every where predicate goes to the trait *)
 Definition deps_with_generics (tg : trait_generics) (g : generics) : trait_generics :=
   let tg1 := fold_left (fun acc p => if is_life p then acc else tg_push_param acc p) (p_items (g_params g)) tg in
-  fold_left tg_push_where (where_items g) tg1.
+  fold_left (lift_where (life_names g)) (where_items g) tg1.
 
 Fixpoint find_type_param (name : string) (l : list gparam) (idx : nat) : option (nat * gparam) :=
   match l with
@@ -64,19 +85,19 @@ Fixpoint push_others (l : list gparam) (idx skip : nat) (tg : trait_generics) : 
 
 (** one where predicate in [find_deps_generic_bounds]: returns the bounds it contributes to the
     dependency and the updated trait generics *)
-Definition deps_where_step (deps_name : string) (acc : list toks * trait_generics) (w : wpred)
+Definition deps_where_step (lts : list string) (deps_name : string) (acc : list toks * trait_generics) (w : wpred)
   : list toks * trait_generics :=
   let '(bounds, tg) := acc in
   if wp_is_type w then
     match wp_bounded w with
     | BPath qself leading nsegs first =>
-        if qself || leading then (bounds, tg_push_where tg w)
-        else if negb (Nat.eqb nsegs 1) then (bounds, tg_push_where tg w)
+        if qself || leading then (bounds, lift_where lts tg w)
+        else if negb (Nat.eqb nsegs 1) then (bounds, lift_where lts tg w)
         else if String.eqb first deps_name then (bounds ++ trait_bounds (wp_bounds w), tg)
         else (bounds, tg)      (* a predicate on another single-segment type: dropped from the trait *)
-    | BOther => (bounds, tg_push_where tg w)
+    | BOther => (bounds, lift_where lts tg w)
     end
-  else (bounds, tg_push_where tg w).
+  else (bounds, lift_where lts tg w).
 
 Definition find_deps_generic_bounds (tg : trait_generics) (g : generics) (name : string)
   : option (fn_deps * trait_generics) :=
@@ -84,7 +105,7 @@ Definition find_deps_generic_bounds (tg : trait_generics) (g : generics) (name :
   | None => None
   | Some (idx, p) =>
       let tg1 := push_others (p_items (g_params g)) 0 idx tg in
-      let '(bounds, tg2) := fold_left (deps_where_step name) (where_items g) (trait_bounds (gp_bounds p), tg1) in
+      let '(bounds, tg2) := fold_left (deps_where_step (life_names g) name) (where_items g) (trait_bounds (gp_bounds p), tg1) in
       Some (DGeneric (Some name) bounds, tg2)
   end.
 
